@@ -23,7 +23,25 @@ const OP_NAMES: [&str; 7] = ["New", "Poll", "Drop", "TryLock", "DropGuard", "Pol
 const NW: usize = 6;
 const WK: [&str; NW] = ["w0", "w1", "w2", "w3", "w4", "w5"];
 
+/// State shared with the re-entrant waker callback (see `core::arm_reentry`): a `try_lock()`
+/// issued from inside a waker's clone / wake / drop while a library call is in progress.
+struct Nested<M: RawMutex + 'static> {
+    m: Option<&'static GenericMutex<M, u64>>,
+    got: Option<GenericMutexGuard<'static, M, u64>>,
+    fired: bool,
+}
+
+unsafe fn nested_try_lock<M: RawMutex + 'static>(ctx: *mut ()) {
+    let c = &mut *(ctx as *mut Nested<M>);
+    c.fired = true;
+    if let Some(m) = c.m {
+        c.got = m.try_lock();
+    }
+}
+
 pub struct MutexWorld<M: RawMutex + 'static> {
+    nested: *mut Nested<M>,
+    reentrant: bool,
     futs: Arena<GenericMutexLockFuture<'static, M, u64>>,
     guards: Vec<Option<GenericMutexGuard<'static, M, u64>>>,
     prim_ref: Option<&'static GenericMutex<M, u64>>,
@@ -39,6 +57,19 @@ pub struct MutexWorld<M: RawMutex + 'static> {
     realism: u64,
     weights: [u32; NW],
     next_id: usize,
+}
+
+impl<M: RawMutex + 'static> Drop for MutexWorld<M> {
+    fn drop(&mut self) {
+        crate::core::disarm_reentry();
+        // Safety: created by Box::into_raw in new(), hook disarmed
+        unsafe {
+            let mut b = Box::from_raw(self.nested);
+            b.m = None;
+            std::mem::forget(b.got.take());
+            drop(b);
+        }
+    }
 }
 
 impl<M: RawMutex + 'static> MutexWorld<M> {
@@ -57,6 +88,15 @@ impl<M: RawMutex + 'static> MutexWorld<M> {
         *guard = self.token;
         self.holder = Some(id);
         self.guards[id] = Some(guard);
+    }
+
+    /// op.c = n | id << 8: a `try_lock()` (guard id `id`) issued from the n-th waker callback of the call
+    fn draw_reentry(&mut self, rng: &mut Rng) -> u64 {
+        if !self.reentrant || self.next_id >= MAX_IDS - 1 || !rng.pct(35) {
+            return 0;
+        }
+        self.next_id += 1;
+        rng.range(1, 3) as u64 | ((self.next_id - 1) as u64) << 8
     }
 
     fn check(&mut self, env: &mut Env, op: Op) {
@@ -122,7 +162,12 @@ impl<M: RawMutex + 'static> World for MutexWorld<M> {
         for (i, w) in weights.iter_mut().enumerate() {
             *w = cfg_get(cfg, WK[i], 10) as u32;
         }
+        // re-entrant calls are only meaningful where the internal lock is a no-op (a real lock
+        // deadlocks on itself), and they alias `&mut` state, which Miri rightly rejects
+        let reentrant = !cfg!(miri) && std::any::TypeId::of::<M>() == std::any::TypeId::of::<NoopLock>() && cfg_get(cfg, "reentrant", 0) != 0;
         MutexWorld {
+            nested: Box::into_raw(Box::new(Nested { m: Some(prim_ref), got: None, fired: false })),
+            reentrant,
             futs: Arena::new(),
             guards: (0..MAX_IDS).map(|_| None).collect(),
             prim_ref: Some(prim_ref),
@@ -184,24 +229,69 @@ impl<M: RawMutex + 'static> World for MutexWorld<M> {
                 let woken: Vec<usize> = pollable.iter().copied().filter(|id| env.slots[*id].uw() || env.slots[*id].st == St::Fresh).collect();
                 let id = if !woken.is_empty() && rng.pct(self.realism) { *rng.pick(&woken) } else { *rng.pick(&pollable) };
                 let v = if rng.pct(25) { rng.below(2) as u32 } else { env.slots[id].last_variant as u32 };
-                Op::new(OP_POLL, id as u32, v, 0)
+                let c = self.draw_reentry(rng);
+                Op::new(OP_POLL, id as u32, v, c)
             }
             OP_DROP => {
                 let pend: Vec<usize> = live.iter().copied().filter(|id| env.slots[*id].st == St::Pending).collect();
                 let id = if !pend.is_empty() && rng.pct(70) { *rng.pick(&pend) } else { *rng.pick(live) };
-                Op::new(OP_DROP, id as u32, 0, 0)
+                let c = self.draw_reentry(rng);
+                Op::new(OP_DROP, id as u32, 0, c)
             }
             OP_TRY => {
                 self.next_id += 1;
                 Op::new(OP_TRY, (self.next_id - 1) as u32, 0, 0)
             }
-            OP_DROP_GUARD => Op::new(OP_DROP_GUARD, self.holder.unwrap() as u32, 0, 0),
+            OP_DROP_GUARD => {
+                let c = self.draw_reentry(rng);
+                Op::new(OP_DROP_GUARD, self.holder.unwrap() as u32, 0, c)
+            }
             _ => Op::new(OP_POLL_COMPLETED, *rng.pick(&done) as u32, 0, 0),
         })
     }
 
     fn exec(&mut self, op: Op, env: &mut Env) {
         let id = op.a as usize % MAX_IDS;
+        let nth = (op.c & 0xff) as u32;
+        let nid = (op.c >> 8) as usize % MAX_IDS;
+        let armed = self.reentrant && self.prim_alive && nth != 0 && matches!(op.k, OP_POLL | OP_DROP | OP_DROP_GUARD) && !self.used[nid] && nid != id;
+        if armed {
+            crate::core::arm_reentry(nested_try_lock::<M>, self.nested as *mut (), nth);
+        }
+        self.exec_inner(op, env, id);
+        if armed {
+            crate::core::disarm_reentry();
+            // Safety: the hook is disarmed; nobody else touches the box now
+            let (fired, got) = unsafe {
+                let c = &mut *self.nested;
+                (std::mem::replace(&mut c.fired, false), c.got.take())
+            };
+            if fired {
+                env.fault("reentrant_try_lock_in_waker_callback");
+                env.log.add(0x5e);
+                env.log.add(got.is_some() as u64);
+                if let Some(g) = got {
+                    // C02 only: whichever way the nested call is ordered relative to the outer
+                    // one, two guards must never be alive together
+                    env.probe("reentrant_try_lock_succeeded");
+                    self.used[nid] = true;
+                    if self.fair && env.any_pending(0, usize::MAX) {
+                        env.fail("C04", "overtaken", "fair mutex: try_lock (from inside a waker callback) succeeded while lock futures are still pending".into(), false);
+                    }
+                    self.acquired(env, nid, g, "try_lock from inside a waker callback");
+                }
+            }
+        }
+        self.check(env, op);
+    }
+
+    fn finish(&mut self, env: &mut Env) {
+        self.finish_impl(env)
+    }
+}
+
+impl<M: RawMutex + 'static> MutexWorld<M> {
+    fn exec_inner(&mut self, op: Op, env: &mut Env, id: usize) {
         match op.k {
             OP_NEW => {
                 if self.prim_alive && !self.used[id] {
@@ -286,10 +376,11 @@ impl<M: RawMutex + 'static> World for MutexWorld<M> {
             }
             _ => {}
         }
-        self.check(env, op);
     }
+}
 
-    fn finish(&mut self, env: &mut Env) {
+impl<M: RawMutex + 'static> MutexWorld<M> {
+    fn finish_impl(&mut self, env: &mut Env) {
         for id in env.live.clone() {
             run_finish_op(self, Op::new(OP_DROP, id as u32, 0, 0), env);
         }
@@ -317,6 +408,7 @@ fn draw_cfg(rng: &mut Rng) -> Cfg {
     c.insert("w0".into(), cfg_get(&c, "w0", 140).max(70));
     c.insert("w1".into(), cfg_get(&c, "w1", 300).max(150));
     c.insert("w4".into(), cfg_get(&c, "w4", 120).max(40));
+    c.insert("reentrant".into(), rng.pct(40) as i64);
     c
 }
 
@@ -335,12 +427,14 @@ fn dispatch_replay(cfg: &Cfg, ops: &[Op], env: &mut Env) {
 }
 
 fn shrink_cfg() -> Vec<(&'static str, Vec<i64>)> {
-    vec![("flavour", vec![0])]
+    vec![("flavour", vec![0]), ("reentrant", vec![0])]
 }
 
 fn shrink_op(op: Op) -> Vec<Op> {
     match op.k {
+        OP_POLL if op.b != 0 && op.c != 0 => vec![Op { b: 0, ..op }, Op { c: 0, ..op }],
         OP_POLL if op.b != 0 => vec![Op { b: 0, ..op }],
+        _ if op.c != 0 => vec![Op { c: 0, ..op }],
         _ => vec![],
     }
 }
